@@ -4,7 +4,9 @@ import (
 	"bytes"
 	"context"
 	"encoding/binary"
+	"errors"
 	"fmt"
+	"io"
 	"net"
 	"reflect"
 	"sort"
@@ -272,7 +274,8 @@ func c04Msgs4(r *core.Rand, headers bool) []kafka.Message {
 	n := r.Range(1, 4)
 	var out []kafka.Message
 	for i := 0; i < n; i++ {
-		m := kafka.Message{Value: r.Bytes(r.Range(0, 50)), Time: time.Unix(0, (c04BaseTs+int64(r.Intn(100000)))*int64(time.Millisecond))}
+		// values of 64 bytes and more make the record's varint-encoded lengths take two bytes
+		m := kafka.Message{Value: r.Bytes(core.Pick(r, r.Range(0, 50), r.Range(0, 50), r.Range(60, 70), r.Range(120, 400))), Time: time.Unix(0, (c04BaseTs+int64(r.Intn(100000)))*int64(time.Millisecond))}
 		if r.Chance(2, 3) {
 			m.Key = r.Bytes(r.Range(0, 10))
 		}
@@ -306,6 +309,52 @@ func c04ConnScenario(k *core.Case) {
 	}
 	conn.SetDeadline(time.Now().Add(5 * time.Second))
 	produceMax := versions[0].Max
+	// readCompare reads the partition from its start through Conn.ReadBatch while the response arrives in
+	// pieces of at most chunk bytes (0: whole) - the Conn codec decodes from a buffer that is then
+	// refilled in the middle of fields - and compares what was decoded with the records the broker stores.
+	readCompare := func(chunk int, all bool, n int) {
+		if _, err := conn.Seek(0, kafka.SeekStart); err != nil {
+			return
+		}
+		nw.ChunkMax = chunk
+		bt := conn.ReadBatch(1, 1<<20)
+		if all {
+			n = 1 << 20
+		}
+		var got []kafka.Message
+		var rerr error
+		for j := 0; j < n; j++ {
+			m, err := bt.ReadMessage()
+			if err != nil {
+				rerr = err
+				break
+			}
+			got = append(got, m)
+		}
+		bt.Close()
+		nw.ChunkMax = 0
+		p := cl.Partition("t", int32(part))
+		if p == nil || (rerr != nil && !errors.Is(rerr, io.EOF)) {
+			return
+		}
+		cl.Lock()
+		want := append([]refcodec.Rec(nil), p.Records...)
+		cl.Unlock()
+		if all && len(got) != len(want) && errors.Is(rerr, io.EOF) {
+			k.Viol("c04:wire:decoded-result:Fetch", fmt.Sprintf("Conn.ReadBatch from the start returned %d messages then io.EOF, the broker encoded %d records (delivery in chunks of %d bytes)", len(got), len(want), chunk), desc)
+		}
+		for j, m := range got {
+			if j >= len(want) {
+				break
+			}
+			wr := want[j]
+			if m.Offset != wr.Offset || !bytes.Equal(m.Key, wr.Key) || !bytes.Equal(m.Value, wr.Value) || m.Time.UnixMilli() != wr.TimestampMs || len(m.Headers) != len(wr.Headers) {
+				k.Viol("c04:wire:decoded-result:Fetch", fmt.Sprintf("Conn.ReadBatch message %d decoded to offset %d, key %d bytes, value %d bytes, time %d, %d headers; the broker encoded offset %d, key %d bytes, value %d bytes, time %d, %d headers (delivery in chunks of %d bytes)", j, m.Offset, len(m.Key), len(m.Value), m.Time.UnixMilli(), len(m.Headers), wr.Offset, len(wr.Key), len(wr.Value), wr.TimestampMs, len(wr.Headers), chunk), desc)
+				break
+			}
+		}
+		k.Ctx.Count("conn_fetch_messages_compared", int64(len(got)))
+	}
 	nops := r.Range(6, 12)
 	for i := 0; i < nops; i++ {
 		op := core.Pick(r, "apiversions", "brokers", "controller", "partitions", "partitions-all", "offsets", "offset-at", "write", "write", "write-compressed", "read", "read", "create", "delete", "acks")
@@ -361,15 +410,7 @@ func c04ConnScenario(k *core.Case) {
 			}
 			conn.WriteCompressedMessages(codecs[r.Intn(len(codecs))], c04Msgs4(r, produceMax >= 3)...)
 		case "read":
-			if _, err := conn.Seek(0, kafka.SeekStart); err == nil {
-				bt := conn.ReadBatch(1, 1<<20)
-				for j := r.Range(0, 3); j > 0; j-- {
-					if _, err := bt.ReadMessage(); err != nil {
-						break
-					}
-				}
-				bt.Close()
-			}
+			readCompare(core.Pick(r, 0, 0, 1, 3, 17, 100), r.Bool(), r.Range(0, 3))
 		case "create":
 			tc := kafka.TopicConfig{Topic: "n" + fmt.Sprint(r.Intn(5)), NumPartitions: r.Range(1, 3), ReplicationFactor: 1}
 			if r.Bool() {
@@ -385,6 +426,11 @@ func c04ConnScenario(k *core.Case) {
 		case "acks":
 			conn.SetRequiredAcks(core.Pick(r, -1, 1, 1))
 		}
+	}
+	// whatever was written is read back whole and in pieces of 1, 3 and 17 bytes
+	conn.SetDeadline(time.Now().Add(10 * time.Second))
+	for _, chunk := range []int{0, 1, 3, 17} {
+		readCompare(chunk, true, 0)
 	}
 	conn.Close()
 	desc["ops"] = ops
